@@ -644,40 +644,77 @@ func c03FamilySets(c *Ctx) {
 	c.Examined(fn)
 	f4 := c.Field("dnsdata", "Accum", "v4prefixset")
 	f6 := c.Field("dnsdata", "Accum", "v6prefixset")
-	isTo4Fact := func(b *ssa.BasicBlock, want bool) bool {
-		return hasFact(b, func(v ssa.Value, truth bool) bool {
-			x, trueNil, ok := nilTest(v)
+	isTo4 := func(facts []fact, want bool) bool {
+		for _, f := range facts {
+			x, trueNil, ok := nilTest(f.V)
 			if !ok {
-				return false
+				continue
 			}
 			call, isCall := x.(*ssa.Call)
 			if !isCall {
-				return false
+				continue
 			}
-			f := calleeOf(call.Common())
-			if f == nil || f.Pkg() == nil || f.Pkg().Path() != "net" || funcShort(f) != "IP.To4" {
-				return false
+			fc := calleeOf(call.Common())
+			if fc == nil || fc.Pkg() == nil || fc.Pkg().Path() != "net" || funcShort(fc) != "IP.To4" {
+				continue
 			}
-			isV4 := trueNil != truth
-			return isV4 == want
-		})
+			if (trueNil != f.Truth) == want {
+				return true
+			}
+		}
+		return false
+	}
+	// the updates: calls (SetBit) that receive a pointer to one of the family sets; the pointer may be chosen first and
+	// used once (`set := &r.v6prefixset; if v4 { set = &r.v4prefixset }; set.SetBit(...)`), so every way into the call
+	// is looked at with the pointer it carries there
+	type upd struct {
+		n  int
+		ok bool
+	}
+	res := map[*types.Var]*upd{f4: {ok: true}, f6: {ok: true}}
+	for _, ci := range callInstrs(fn) {
+		var ptr ssa.Value
+		for _, a := range ci.Common().Args {
+			for v := range backSlice(a, nil) {
+				if fa, isFA := v.(*ssa.FieldAddr); isFA && (fieldOf(fa) == f4 || fieldOf(fa) == f6) {
+					ptr = a
+				}
+			}
+		}
+		if ptr == nil {
+			continue
+		}
+		counted := map[*types.Var]bool{}
+		for _, p := range nearPaths(ci, 32) {
+			fa, isFA := p.value(ptr).(*ssa.FieldAddr)
+			if !isFA {
+				// not resolved on this path: every set it may stand for is updated without a known family
+				for v := range backSlice(ptr, nil) {
+					if fa2, ok := v.(*ssa.FieldAddr); ok && res[fieldOf(fa2)] != nil {
+						res[fieldOf(fa2)].ok = false
+						counted[fieldOf(fa2)] = true
+					}
+				}
+				continue
+			}
+			u := res[fieldOf(fa)]
+			if u == nil {
+				continue
+			}
+			counted[fieldOf(fa)] = true
+			if !isTo4(p.facts, fieldOf(fa) == f4) {
+				u.ok = false
+			}
+		}
+		for f := range counted {
+			res[f].n++
+		}
 	}
 	for _, t := range []struct {
 		f    *types.Var
 		name string
-		v4   bool
-	}{{f4, "v4prefixset", true}, {f6, "v6prefixset", false}} {
-		ok, n := true, 0
-		for _, b := range fn.Blocks {
-			for _, in := range b.Instrs {
-				if fa, isFA := in.(*ssa.FieldAddr); isFA && fieldOf(fa) == t.f {
-					n++
-					if !isTo4Fact(b, t.v4) {
-						ok = false
-					}
-				}
-			}
-		}
+	}{{f4, "v4prefixset"}, {f6, "v6prefixset"}} {
+		ok, n := res[t.f].ok, res[t.f].n
 		c.Check(rule, fnName(fn)+"|"+t.name+"|selected-by-address-family", ok && n > 0, fn.Pos(), fmt.Sprintf("%d updates of %s", n, t.name))
 	}
 	// every subnet is accounted for in its family's set: the only way past the family update is the "no prefix sets"
